@@ -1,5 +1,12 @@
 import Ufw.Props.C07
 import Ufw.Tie.Regp
+import Ufw.Tie.RegpFns.Common
+import Ufw.Tie.RegpFns.PayloadPlausible
+import Ufw.Tie.RegpFns.Req2resp
+import Ufw.Tie.RegpFns.MsemSize
+import Ufw.Tie.RegpFns.MemtypeValid
+import Ufw.Tie.RegpFns.RawWithHdcrc
+import Ufw.Tie.RegpFns.RawWithPlcrc
 #print axioms Ufw.Props.C07.verdict_eq_spec
 #print axioms Ufw.Props.C07.accepted_payload_checksum
 #print axioms Ufw.Props.C07.rejected_not_executed
@@ -17,3 +24,26 @@ import Ufw.Tie.Regp
 #print axioms Ufw.Tie.Regp.const_frame_types
 #print axioms Ufw.Tie.Regp.const_response_codes
 #print axioms Ufw.Tie.Regp.const_value_codes
+#print axioms Ufw.Tie.RegpFns.opt16_iff
+#print axioms Ufw.Tie.RegpFns.lit_iff
+#print axioms Ufw.Tie.RegpFns.two64
+#print axioms Ufw.Tie.RegpFns.stwo64
+#print axioms Ufw.Tie.RegpFns.zero64
+#print axioms Ufw.Tie.RegpFns.szero64
+#print axioms Ufw.Tie.RegpFns.b2bv8_true
+#print axioms Ufw.Tie.RegpFns.b2bv8_false
+#print axioms Ufw.Tie.RegpFns.tail_eq
+#print axioms Ufw.Tie.RegpFns.gen_payload_plausible
+#print axioms Ufw.Tie.RegpFns.gen_req2resp
+#print axioms Ufw.Tie.RegpFns.mul2
+#print axioms Ufw.Tie.RegpFns.mul1
+#print axioms Ufw.Tie.RegpFns.gen_msem_size_s16
+#print axioms Ufw.Tie.RegpFns.gen_msem_size_s8
+#print axioms Ufw.Tie.RegpFns.gen_msem_size_auto
+#print axioms Ufw.Tie.RegpFns.opt16_b8
+#print axioms Ufw.Tie.RegpFns.opt16_b8'
+#print axioms Ufw.Tie.RegpFns.gen_memtype_valid
+#print axioms Ufw.Tie.RegpFns.hd_mask
+#print axioms Ufw.Tie.RegpFns.gen_raw_with_hdcrc
+#print axioms Ufw.Tie.RegpFns.pl_mask
+#print axioms Ufw.Tie.RegpFns.gen_raw_with_plcrc
